@@ -292,6 +292,9 @@ where
     if is_4digits::<FORMAT>(bytes) {
         // SAFETY: safe since we have at least 4 bytes in the buffer.
         unsafe { iter.step_by_unchecked(4) };
+        // The iterator can be contiguous for these digits while other parts
+        // of the number use digit separators: then digits are counted one by one.
+        (0..4).for_each(|_| iter.increment_count());
         Some(T::as_cast(parse_4digits::<FORMAT>(bytes)))
     } else {
         None
@@ -366,6 +369,9 @@ where
     if is_8digits::<FORMAT>(bytes) {
         // SAFETY: safe since we have at least 8 bytes in the buffer.
         unsafe { iter.step_by_unchecked(8) };
+        // The iterator can be contiguous for these digits while other parts
+        // of the number use digit separators: then digits are counted one by one.
+        (0..8).for_each(|_| iter.increment_count());
         Some(T::as_cast(parse_8digits::<FORMAT>(bytes)))
     } else {
         None
